@@ -136,6 +136,9 @@ def law_violations(observed, sources):
             m.setdefault(kind, []).append(s)
         eq, pc, cm, hs = m.get('eq'), m.get('pcmp'), m.get('cmp'), m.get('hash')
         n = len(eq or pc or cm or hs or [])
+        # field type `P` of the lawful prelude: a lawful *partial* order (`P(2)` is unequal to itself, like a NaN) —
+        # reflexivity is not a law there; the agreement of `==` with `partial_cmp` is
+        partial = re.search(r'\bP\b', sources.get(key, '').split('{', 1)[-1]) is not None
 
         def fail(law, i, j, k=None):
             bad.append(dict(module=key, law=law, i=i, j=j, k=k, source=sources.get(key, ''),
@@ -155,7 +158,7 @@ def law_violations(observed, sources):
                     fail('== symmetric', i, j)
                 if cm and cm[j][i] != REV[cm[i][j]]:
                     fail('cmp(b,a) == cmp(a,b).reverse()', i, j)
-            if eq and eq[i][i] != '1':
+            if eq and eq[i][i] != '1' and not partial:
                 fail('== reflexive', i, i)
             if cm and cm[i][i] != '=':
                 fail('cmp(a,a) == Equal', i, i)
